@@ -30,7 +30,7 @@ RULE = (
     "RuleBasedStateMachine over the real LabelScheduleSource: 1-3 tasks on the source's own broker or shared "
     "(foreign-broker) tasks, each with 0-5 schedule entries of kind cron / time / both / neither / with extra keys, "
     "duplicates and equal times; rules list and fire (= real scheduler.on_ready on any schedule of ANY earlier listing, "
-    "so stale and repeated firings occur) in any order. Model: one list per task. Invariant after every rule: the "
+    "so stale and repeated firings occur) in any order. Model: one list per task. Invariant at every listing (a listing is a step of the history, none is made behind its back) and at the end: the "
     "multiset (task, cron, time, args, kwargs) of get_schedules() equals the model's cron/time entries of own-broker "
     "tasks; every firing of a time-only schedule removes exactly one entry whose time equals the fired one (if any is "
     "left) and changes nothing else; firing cron / cron+time entries removes nothing; each firing sends exactly one "
@@ -182,7 +182,7 @@ def run_on_ready(c: Dict[str, Any]) -> Outcome:
 
 def entry_strategy() -> Any:
     return st.fixed_dictionaries({
-        "kind": st.sampled_from(["cron", "time", "time", "time", "both", "neither"]),
+        "kind": st.sampled_from(["cron", "time", "time", "time", "time", "both", "neither"]),
         "cron": st.sampled_from(["* * * * *", "*/5 * * * *", "1 2 3 4 5"]),
         "t": st.integers(0, len(TIMES) - 1),
         "tag": st.integers(0, 2),
@@ -254,6 +254,7 @@ class LabelSim:
         if o == "list":
             got = self.loop.run_until_complete(self.source.get_schedules())
             self.listings.append(got)
+            self.compare_listing(got, out)
             return
         if o == "fire":
             flat = [s for l in self.listings for s in l]
@@ -294,7 +295,12 @@ class LabelSim:
                     self.model[n].pop(idx)
 
     def check(self, out: Outcome) -> None:
+        """Final check only: listing is itself an operation of the source (it may refresh internal state), so
+        it is not performed behind the history's back after every step."""
         got = self.loop.run_until_complete(self.source.get_schedules())
+        self.compare_listing(got, out)
+
+    def compare_listing(self, got: List[Any], out: Outcome) -> None:
         def key(task: str, r: Dict[str, Any]) -> Any:
             return (task, r.get("cron"), r.get("time").isoformat() if r.get("time") else None, repr(r.get("args", [])), repr(r.get("kwargs", {})))
         want = sorted((key(n, r) for n, lst in self.model.items() for r in lst if "cron" in r or "time" in r), key=repr)
@@ -310,10 +316,10 @@ def run_label_history(case: Dict[str, Any]) -> Outcome:
     try:
         for op in case["ops"]:
             sim.apply(op, out)
-            if not out.violations:
-                sim.check(out)
             if out.violations:
                 break
+        if not out.violations:
+            sim.check(out)
         finish(sim, out)
     finally:
         sim.close()
@@ -338,8 +344,6 @@ def make_machine(ctx: Any, ctx_state: Dict[str, Any]) -> Any:
             out = Outcome()
             out.clauses_checked = ["C16.b", "C16.c", "C16.d"]
             self.sim.apply(op, out)
-            if not out.violations:
-                self.sim.check(out)
             engine.machine_report(ctx, ctx_state, {"part": "label_source", "ops": list(self.sim.ops)}, out, final=False)
 
         @initialize(tasks=setup_strategy())
@@ -353,6 +357,12 @@ def make_machine(ctx: Any, ctx_state: Dict[str, Any]) -> Any:
         @rule(k=st.integers(0, 40))
         def fire(self, k: int) -> None:
             self._step({"op": "fire", "k": k})
+
+        @rule()
+        def final_listing(self) -> None:
+            # a listing behind which nothing is hidden: compares get_schedules() with the model, and it is a step of
+            # the history (recorded as a list op), so the shrunk history replays identically
+            self._step({"op": "list"})
 
         def teardown(self) -> None:
             out = Outcome()
